@@ -10,7 +10,7 @@ use kernel::seams::Xo;
 use kernel::sim::{App, Input, Msg, NetAction, NetFault, NodeId, Sim, EPOCH_NS, MS, SEC};
 use refimpl::layout::PokFields;
 use refimpl::Pt;
-use simtypes::{Grp, Lib, Op, Out};
+use simtypes::{Codec, Grp, Lib, Op, Out};
 use std::collections::BTreeMap;
 
 pub struct PokClock;
@@ -409,7 +409,50 @@ impl<'a> App for World<'a> {
                 }
                 (K_CHALLENGE, PROVER) => {
                     let (Some(c), Some(x)) = (self.commitment.clone(), self.secret.clone()) else { return };
-                    let out = self.rec.call(self.lib, self.g, Op::PokFinalize, &[&c, &x, &msg.parts[0], &self.sig.clone()]);
+                    // between step 1 and step 3 the prover is a process that may be restarted: it parked its commitment secret (and
+                    // the commitment) in a drawn codec and reads them back now; the challenge came over the wire in a drawn codec
+                    const SCALAR_CODECS: [Codec; 14] = [Codec::Bytes, Codec::BytesVec, Codec::BytesRefVec, Codec::BytesBox, Codec::Bare, Codec::Json, Codec::Be, Codec::Le, Codec::JsonReader, Codec::JsonValue, Codec::TreeBin, Codec::TreeBinLend, Codec::TreeHr, Codec::TreeBinMap];
+                    let mut cx = Xo::derive(self.plan.seed, &[0x9A4C]);
+                    let (park, wire) = (SCALAR_CODECS[cx.below(14) as usize], SCALAR_CODECS[cx.below(14) as usize]);
+                    let through = |rec: &mut Rec, lib: &dyn Lib, g: Grp, ty: simtypes::Ty, cd: Codec, v: &[u8]| -> Result<Vec<u8>, String> {
+                        let e = crate::env::recode(rec, lib, g, ty, Codec::Bytes, cd, v).first().map(|b| b.to_vec()).ok_or_else(|| format!("cannot be written as {}", cd.name()))?;
+                        crate::env::recode(rec, lib, g, ty, cd, Codec::Bytes, &e).first().map(|b| b.to_vec()).ok_or_else(|| format!("written as {} cannot be read back", cd.name()))
+                    };
+                    let zero = |v: &[u8]| v.iter().all(|b| *b == 0);
+                    let x = if zero(&x) { x } else {
+                        match through(self.rec, self.lib, self.g, simtypes::Ty::ProofCommitmentSecret, park, &x) {
+                            Ok(b) => {
+                                self.rec.expect("C10", "pok-complete", b == x, || format!("parked-secret codec={} | the commitment secret parked between step 1 and step 3 came back as another value", park.name()));
+                                b
+                            }
+                            Err(why) => {
+                                self.rec.expect("C10", "pok-complete", false, || format!("parked-secret codec={} | the holder cannot complete the protocol: its commitment secret {}", park.name(), why));
+                                return;
+                            }
+                        }
+                    };
+                    let y_in = msg.parts[0].clone();
+                    let y = if zero(&y_in) || y_in.len() != 32 { y_in } else {
+                        match through(self.rec, self.lib, self.g, simtypes::Ty::ProofCommitmentChallenge, wire, &y_in) {
+                            Ok(b) => {
+                                self.rec.expect("C10", "pok-complete", b == y_in, || format!("challenge-on-the-wire codec={} | the challenge reached the prover as another value", wire.name()));
+                                b
+                            }
+                            Err(why) => {
+                                self.rec.expect("C10", "pok-complete", false, || format!("challenge-on-the-wire codec={} | the holder cannot complete the protocol: the challenge {}", wire.name(), why));
+                                return;
+                            }
+                        }
+                    };
+                    let c = match through(self.rec, self.lib, self.g, simtypes::Ty::ProofCommitment, if matches!(park, Codec::Be | Codec::Le) { Codec::Bare } else { park }, &c) {
+                        Ok(b) => b,
+                        Err(why) => {
+                            self.rec.expect("C10", "pok-complete", false, || format!("parked-commitment codec={} | {}", park.name(), why));
+                            return;
+                        }
+                    };
+                    self.rec.case(&[13, self.g as u64, park as u64, wire as u64], true);
+                    let out = self.rec.call(self.lib, self.g, Op::PokFinalize, &[&c, &x, &y, &self.sig.clone()]);
                     let Some(pb) = out.first().map(|b| b.to_vec()) else {
                         self.rec.expect("C10", "pok-complete", false, || format!("finalize | ProofCommitment::finalize failed: {:?}", out));
                         return;
